@@ -92,6 +92,23 @@ def check(R, F, P, cfg):
     cn = adt_of_type(F, "cleaners::Cleaner")
     R.inst("R10.4", "cleaner-no-drop-impl", cn["destructor"] is None, "Cleaner has no Drop impl of its own (drop glue drops the map's Cc): %s" % (cn["destructor"] is None), cfg=cfg, nontrivial=False)
 
+    # ---- R10.6 the slot holding the map is never overwritten while it holds one -------------------------------------------
+    R.doc("R10.6", "a Drop of the Cleaner's map slot (an assignment to it drops the old value, and with it every registered action) outside the Cleaner's own drop glue is provably a no-op (slot is None)")
+    k = 0
+    for f in F.fns.values():
+        if not f.npath.startswith("cleaners::") or f.kind == "closure":
+            continue
+        S = Super(P, f, opaque=DO - {f.npath})
+        for n in S.nodes:
+            if n.ci is None or n.ci["k"] != "drop" or "CleanerMap" not in n.ci["ty"] or n.is_cleanup:
+                continue
+            pl = fmt(strip(S.resolve_place(n.ctx, n.term["place"])))
+            if "cleaner_map" not in pl or "upgrade(" in pl:
+                continue    # a local temporary or a transient upgraded owner (e.g. a freshly built, still empty map), not the slot
+            k += 1
+            R.inst("R10.6", "slot-overwrite:%s" % f.npath, _drops_nothing(S, n), "%s drops the value stored in the slot %s (type %s): %s" % (f.npath, pl, n.ci["ty"], "provably None at that point" if _drops_nothing(S, n) else "it may hold the map, whose actions would then run although the Cleaner is alive and clean() was not called"), where=n.where(), cfg=cfg)
+    R.inst("R10.6", "slot-overwrite-sites", True, "%d drops of the map slot outside drop glue examined" % k, cfg=cfg, nontrivial=False)
+
     # ---- R10.5 R-INTERIOR-MUT ---------------------------------------------------------------------------------------------
     check_interior_mut(R, F, P, cfg, "R10.5")
 
@@ -210,7 +227,8 @@ def _drops_nothing(S, U):
     if U.ci["k"] != "drop":
         return False
     pl = strip(S.resolve_place(U.ctx, U.term["place"]))
-    for a, t in S.literals_at(U, exclude=("ui", "u")):
+    from engine.graph import fresh_literals_at
+    for a, t in fresh_literals_at(S, U, exclude=("ui", "u")):
         if a[0] == "bool" and t is True:
             e = strip(a[1])
             if isinstance(e, tuple) and e[0] == "call" and e[1] == "std::option::Option::<T>::is_none" and strip(e[2][0]) == pl:
